@@ -272,5 +272,154 @@ theorem C11_event_method_exists_counterexample : ¬ C11_event_method_exists := b
   revert this
   decide
 
+/-! ### get_triggers / get_transitions against the events table -/
+
+theorem kget_iff_mem_nodup {β : Type} {k : Name} {v : β} {l : List (Name × β)} (hn : (keys l).Nodup) :
+    kget k l = some v ↔ (k, v) ∈ l := by
+  constructor
+  · exact kget_mem k v l
+  · intro h
+    induction l with
+    | nil => cases h
+    | cons hd t ih =>
+      obtain ⟨k0, v0⟩ := hd
+      simp only [keys, List.map_cons, List.nodup_cons] at hn
+      rcases List.mem_cons.mp h with h | h
+      · injection h with h1 h2; subst h1; subst h2; simp [kget]
+      · have : k0 ≠ k := by intro e; subst e; exact hn.1 (List.mem_map_of_mem (f := (·.1)) h)
+        simp only [kget, this, if_false]; exact ih hn.2 h
+
+/-- **C11, get_triggers is exact** (flat machines, every history): `get_triggers(s)` lists an event iff
+the events table has a transition of that event with source `s` — and that is exactly when firing
+the event from `s` is not refused ("Can't trigger event … from state …" / unknown event). -/
+theorem C11_get_triggers_exact (attr : Name) (ov auto : Bool) (ops : List Op) (ha : AttrOK attr) (hf : OpsFresh ops)
+    (s e : Name) :
+    (e ∈ getTriggers (Reach attr ov auto ops) [s] ↔
+      ∃ ts, kget e (Reach attr ov auto ops).events = some ts ∧ ∃ t ∈ ts, t.source = s) ∧
+    (∀ m, (Reach attr ov auto ops).stateOf m = some s →
+      (e ∈ getTriggers (Reach attr ov auto ops) [s] ↔
+        ((fire (Reach attr ov auto ops) m e).2 ≠ .error .machineError ∧
+         (fire (Reach attr ov auto ops) m e).2 ≠ .error .attributeError))) := by
+  have hi := reach_inv attr ov auto ops ha hf
+  generalize Reach attr ov auto ops = hm at *
+  have h1 : e ∈ getTriggers hm [s] ↔ ∃ ts, kget e hm.events = some ts ∧ ∃ t ∈ ts, t.source = s := by
+    simp only [getTriggers, List.mem_filterMap]
+    constructor
+    · rintro ⟨⟨e', ts⟩, hmem, hsome⟩
+      split at hsome
+      · rename_i hany
+        injection hsome with hsome; subst hsome
+        obtain ⟨t, ht, hts⟩ := List.any_eq_true.mp hany
+        exact ⟨ts, (kget_iff_mem_nodup hi.nodupE).mpr hmem, t, ht, by simpa using hts⟩
+      · cases hsome
+    · rintro ⟨ts, hk, t, ht, hts⟩
+      refine ⟨(e, ts), (kget_iff_mem_nodup hi.nodupE).mp hk, ?_⟩
+      have : ts.any (fun t => [s].contains t.source) = true := List.any_eq_true.mpr ⟨t, ht, by simp [hts]⟩
+      show (if ts.any (fun t => [s].contains t.source) = true then some e else none) = some e
+      rw [if_pos this]
+  refine ⟨h1, ?_⟩
+  intro m hst
+  rw [h1]
+  unfold HM.stateOf at hst
+  cases hk : kget m hm.objs with
+  | none => simp [hk] at hst
+  | some o =>
+    simp only [hk] at hst
+    have hmo : (m, o) ∈ hm.objs := kget_mem _ _ _ hk
+    have hs : s ∈ hm.states := by
+      obtain ⟨c, hc⟩ := (hi.objs m o hmo).st
+      have := (hi.objs m o hmo).inst _ _ hc
+      have h2 : o.stateOf hm.attr = some c := by simp [Obj.stateOf, Obj.getattr, hc]
+      rw [h2] at hst; injection hst with hst; subst hst; exact this.2
+    unfold fire
+    simp only [hk, hst, hs, not_true_eq_false, if_false]
+    cases he : kget e hm.events with
+    | none => simp
+    | some ts =>
+      simp only
+      cases hf' : ts.filter (fun t => t.source = s) with
+      | nil =>
+        simp only [ne_eq, not_true_eq_false, false_and, iff_false, not_exists, not_and]
+        intro ts' hts' t ht hsrc
+        injection hts' with hts'; subst hts'
+        have : t ∈ ts.filter (fun t => t.source = s) := List.mem_filter.mpr ⟨ht, by simpa using hsrc⟩
+        rw [hf'] at this; cases this
+      | cons c cs =>
+        have hc : c ∈ ts.filter (fun t => t.source = s) := by rw [hf']; exact List.mem_cons_self ..
+        have hc' := List.mem_filter.mp hc
+        constructor
+        · intro _
+          simp only
+          split
+          · simp
+          · split
+            · simp
+            · split <;> simp
+        · intro _
+          exact ⟨ts, rfl, c, hc'.1, by simpa using hc'.2⟩
+
+/-- the events table as a list of (event, transition) pairs -/
+def allTransitions (hm : HM) : List (Name × Tr) := hm.events.flatMap fun ev => ev.2.map fun t => (ev.1, t)
+
+def matchesSel (trigger src dst : Option Name) (p : Name × Tr) : Bool :=
+  (match trigger with | some e => p.1 == e | none => true) && selMatch src dst p.2
+
+theorem filter_key_eq {β : Type} (e : Name) : ∀ (l : List (Name × β)), (keys l).Nodup →
+    l.filter (fun p => p.1 == e) = (match kget e l with | some ts => [(e, ts)] | none => [])
+  | [], _ => rfl
+  | (k0, v0) :: t, hn => by
+    simp only [keys, List.map_cons, List.nodup_cons] at hn
+    by_cases hk : k0 = e
+    · subst hk
+      have : kget k0 t = none := (kget_none_iff k0 t).mpr hn.1
+      have ih := filter_key_eq k0 t hn.2
+      rw [this] at ih
+      simp [kget, ih]
+    · have ih := filter_key_eq e t hn.2
+      simp [kget, hk, ih]
+
+/-- **C11, get_transitions is exact** (flat machines, every history): the result is — as a list, with
+multiplicities and in table order — the transitions of the events table that match the three
+selectors; an unknown trigger gives `[]`. -/
+theorem C11_get_transitions_exact (attr : Name) (ov auto : Bool) (ops : List Op) (ha : AttrOK attr) (hf : OpsFresh ops)
+    (trigger src dst : Option Name) :
+    getTransitions (Reach attr ov auto ops) trigger src dst =
+      (allTransitions (Reach attr ov auto ops)).filter (matchesSel trigger src dst) := by
+  have hi := reach_inv attr ov auto ops ha hf
+  generalize Reach attr ov auto ops = hm at *
+  unfold getTransitions allTransitions
+  cases trigger with
+  | none =>
+    congr 1
+  | some e =>
+    have key : ∀ (l : List (Name × List Tr)),
+        (l.flatMap fun ev => ev.2.map fun t => (ev.1, t)).filter (fun p => p.1 == e) =
+        (l.filter (fun p => p.1 == e)).flatMap fun ev => ev.2.map fun t => (ev.1, t) := by
+      intro l
+      induction l with
+      | nil => rfl
+      | cons hd t ih =>
+        simp only [List.flatMap_cons, List.filter_append, ih, List.filter_cons]
+        by_cases hh : hd.1 = e
+        · have : List.filter (fun _ => true) hd.2 = hd.2 := List.filter_eq_self.mpr (fun _ _ => rfl)
+          simp [hh, List.filter_map, Function.comp_def, this]
+        · simp [hh, List.filter_map, Function.comp_def]
+    have split3 : ∀ (l : List (Name × Tr)),
+        l.filter (matchesSel (some e) src dst) =
+        (l.filter (fun p => p.1 == e)).filter (matchesSel none src dst) := by
+      intro l
+      rw [List.filter_filter]
+      congr 1
+      funext p
+      simp only [matchesSel, Bool.true_and]
+      cases (p.1 == e) <;> simp
+    rw [split3, key, filter_key_eq e hm.events hi.nodupE]
+    have m0 : matchesSel none src dst = fun p => selMatch src dst p.2 := by
+      funext p; simp [matchesSel]
+    rw [m0]
+    cases hk : kget e hm.events with
+    | none => simp [hk]
+    | some ts => simp [hk]
+
 end Helpers
 end TM
